@@ -3,7 +3,7 @@ use crate::{
     args::State,
     buffer::MetaInfo,
     error::{Message, MissingItem},
-    Doc, Error, Meta, Parser,
+    Doc, Error, Meta, ParseFailure, Parser,
 };
 use std::marker::PhantomData;
 
@@ -816,8 +816,13 @@ where
             // anything left unconsumed - this won't be lost.
 
             let missing = matches!(err, Message::Missing(_));
+            // help or version printed by a subcommand is an outcome, not a failure to recover from
+            let stdout = matches!(err, Message::ParseFailure(ParseFailure::Stdout(..)));
 
-            if catch || (missing && orig_args.len() == args.len()) || (!missing && err.can_catch())
+            if !stdout
+                && (catch
+                    || (missing && orig_args.len() == args.len())
+                    || (!missing && err.can_catch()))
             {
                 std::mem::swap(&mut orig_args, args);
                 #[cfg(feature = "autocomplete")]
